@@ -100,7 +100,16 @@ void harness(void) {
 	spec_norm_text(&e_frag, &v0.fragment, 1, 0);
 	spec_norm_path(&e_path, segstore, &v0);
 	relref = sn_is_relpath_ref(&v0);
-
+	/* C08 does not say what a relative-path reference whose dot-free path is empty or starts with an empty segment becomes
+	 * (C09 only demands that it stays relative and non-empty): those inputs are exempt from the content comparison */
+	unspecified = relref && (sv_path_empty(&e_path) || sv_path_unrooted_reads_rooted(&e_path)) && !sv_path_empty(&v0.path);
+#ifndef V_COMPS
+# define V_COMPS 127
+#endif
+	VCOVER((!((V_COMPS) & 8) || a.nseg == VM) && (!((V_COMPS) & 4) || (a.hostkind == VU_HK_REG && a.hostText.len == VL))
+		&& (!((V_COMPS) & 16) || a.query.len == VL) && (!((V_COMPS) & 1) || a.scheme.len == VL), "every admitted component present at full size");
+	VCOVER(!unspecified && a.nseg > 0 || !((V_COMPS) & 8), "a path whose normal form is specified");
+	VCOVER_END;
 #if V_PART != 2
 	/* ---- mask query (read-only) ---- */
 	rmask = URI_FUNC(NormalizeSyntaxMaskRequiredEx)(&u, &m0);
@@ -114,20 +123,14 @@ void harness(void) {
 	t = sn_txt(&e_host);   VPOST("C08", (m0 & URI_NORMALIZE_HOST) || txt_same(&t, &v0.hostText), "MaskRequired: HOST bit clear => host already normal");
 	t = sn_txt(&e_query);  VPOST("C08", (m0 & URI_NORMALIZE_QUERY) || txt_same(&t, &v0.query), "MaskRequired: QUERY bit clear => query already normal");
 	t = sn_txt(&e_frag);   VPOST("C08", (m0 & URI_NORMALIZE_FRAGMENT) || txt_same(&t, &v0.fragment), "MaskRequired: FRAGMENT bit clear => fragment already normal");
-	unspecified = relref && (sv_path_empty(&e_path) || sv_path_unrooted_reads_rooted(&e_path)) && !sv_path_empty(&v0.path);
 	VPOST_KF("C08", KF_C08_NETPATH_KEEPS_DOTDOT,
 		(v0.scheme.len < 0 && v0.hostkind != VU_HK_NONE),
 		(m0 & URI_NORMALIZE_PATH) || unspecified || sv_path_eq(&e_path, &v0.path), "MaskRequired: PATH bit clear => path already normal",
 		"C08-network-path-reference-treated-as-relative");
 
-#ifndef V_COMPS
-# define V_COMPS 127
-#endif
-	VCOVER((!((V_COMPS) & 8) || a.nseg == VM) && (!((V_COMPS) & 4) || (a.hostkind == VU_HK_REG && a.hostText.len == VL))
-		&& (!((V_COMPS) & 16) || a.query.len == VL) && (!((V_COMPS) & 1) || a.scheme.len == VL), "every admitted component present at full size");
 #if V_PART != 2
-	VCOVER(m0 == 0, "URI already normal");
-	VCOVER(m0 != 0, "a component needs normalization");
+	VCOVER_POST(m0 == 0, "URI already normal");
+	VCOVER_POST(m0 != 0, "a component needs normalization");
 #endif
 
 #endif
@@ -138,7 +141,7 @@ void harness(void) {
 	VBOUND(g_allocs <= VMM_MAXREQ, "at most 64 allocation requests per call");
 	VPOST("C13", g_mm_misuse == 0, "only malloc/calloc/free of the supplied manager are used");
 	if (g_failed > 0) {
-		VCOVER(g_failed > 0 && g_allocs >= 3, "third allocation request refused or later");
+		VCOVER_POST(g_failed > 0 && g_allocs >= 3, "third allocation request refused or later");
 		VPOST("C14", ret == URI_ERROR_MALLOC, "NormalizeSyntax: a refused allocation request => URI_ERROR_MALLOC");
 	} else {
 		VPOST("C08,C14", ret == URI_SUCCESS, "NormalizeSyntax: no allocation failure => URI_SUCCESS");
